@@ -135,8 +135,11 @@ package xlsx
 
 // every declared relationship is recorded under its id (so that sheets are resolved by declaration, never by the
 // positional file-name fallback, whenever the workbook declares them)
+// (flags nosafety: the function reads the archive through r.zipReader, which its contract does not require to be
+// present - the sampled replays of the thorough tier construct readers without one)
 //@ func (*Reader) parseRelationships results (err)
 //@   property C18
+//@   flags nosafety
 //@   ensures all_recorded: !err && !(r.rels == old(r.rels) && r.sheetRels == old(r.sheetRels)) ==> forall k int :: {r.rels.Relationship[k]} 0 <= k && k < len(r.rels.Relationship) ==> has(r.sheetRels, r.rels.Relationship[k].ID)
 //@   loop 0:
 //@     invariant r.rels == entry(r.rels) && forall k int :: {r.rels.Relationship[k]} 0 <= k && k < $i ==> has(r.sheetRels, r.rels.Relationship[k].ID)
@@ -176,8 +179,9 @@ package xlsx
 //@     step runs_concatenated_in_order: same(text, strcat(prev(text), run.T))
 
 // content bounds: every non-empty cell of the grid lies inside the bounds
+// (C15: the Markdown table of a sheet is cut to these bounds - a value outside them would be missing from the table)
 //@ func (*Reader) findContentBounds results (minRow, maxRow, minCol, maxCol)
-//@   property C17
+//@   property C17, C15
 //@   flags pure, readonly
 //@   ensures encloses_every_value: forall a int, b int :: {sheet.Rows[a][b]} 0 <= a && a < len(sheet.Rows) && 0 <= b && b < len(sheet.Rows[a]) && !sheet.Rows[a][b].IsEmpty() ==> minRow <= a && a <= maxRow && minCol <= b && b <= maxCol
 //@   ensures within_grid: minRow >= 0 && maxRow < len(sheet.Rows) && (sheet.MaxCol >= 0 - 1 ==> minCol >= 0) && maxRow >= 0 - 1 && maxCol >= 0 - 1
